@@ -113,6 +113,27 @@ func runC03(c *fw.Ctx, idx int) {
 		}
 		return
 	}
+	if idx < 5+len(c01dir) {
+		// the boundary and length-sweep streams of C01 (every variable-length scalar at every length 1..130), converted in both directions
+		in := c01dir[idx-5]
+		if _, rej, _ := throughRules(in, cfg); rej >= 0 {
+			return
+		}
+		c.Inc("directed_length_sweeps")
+		if doc, fi, _ := encodeWithRules(ce.NewCBEEncoder(cfg), in, cfg); fi < 0 {
+			if b0 := decodeDoc(ce.NewCBEDecoder(cfg), doc, cfg, true); b0.Err == nil && b0.Panic == nil {
+				c.Eval()
+				c03FromCBE(c, cfg, doc, b0.Log)
+			}
+		}
+		if text, fi, _ := encodeWithRules(ce.NewCTEEncoder(cfg), in, cfg); fi < 0 {
+			if b0 := decodeDoc(ce.NewCTEDecoder(cfg), text, cfg, true); b0.Err == nil && b0.Panic == nil {
+				c.Eval()
+				c03FromCTE(c, cfg, text, b0.Log)
+			}
+		}
+		return
+	}
 	family := idx % 3
 	switch family {
 	case 0, 1:
